@@ -188,7 +188,8 @@ Verify(n, r) ==
 ----------------------------------------------------------------------------
 FreshMw == [sum |-> <<>>, start |-> 0, ch |-> <<>>, vs |-> "idle", cur |-> NoRep, last |-> 0, gate |-> FALSE,
             cnt |-> [cpw |-> 0, drop |-> 0, ver |-> 0, wfail |-> 0, rfail |-> 0],
-            deliv |-> <<>>, pend |-> <<>>, wrote |-> {}, sblk |-> 0]
+            deliv |-> <<>>, pend |-> <<>>, wrote |-> {}, sblk |-> 0,
+            bdrop |-> 0]      \* ghost: most reports dropped by a single StoreLogs call (scenario selection only)
 
 ZeroBud == [cp |-> 0, tt |-> 0, th |-> 0, snap |-> 0, rs |-> 0, cor |-> 0, fo |-> 0, blk |-> 0, fail |-> 0]
 
@@ -226,7 +227,9 @@ StoreLogs(n, batch, keys, fail) ==
           IN [ok |-> TRUE,
               st |-> [f |-> IF EmptyS(st[n]) THEN b0 ELSE st[n].f, c |-> st[n].c \o [p \in 1..Len(run.recs) |-> EntOf(run.recs[p])]],
               tw |-> [f |-> IF EmptyS(tw[n]) THEN b0 ELSE tw[n].f, c |-> tw[n].c \o [p \in 1..Len(batch) |-> EntOf(batch[p])]],
-              mw |-> Trig(m1, reps)]
+              mw |-> LET t == Trig(m1, reps)
+                         d == t.cnt.drop - m1.cnt.drop
+                     IN [t EXCEPT !.bdrop = IF d > @ THEN d ELSE @]]
 
 NCps(batch) == Cardinality({p \in 1..Len(batch) : IsCP(batch[p])})
 
@@ -508,6 +511,7 @@ Tags(r, n) == (IF r.eq /\ (bud.tt + bud.th + bud.snap + bud.rs > 0 \/ term > 1) 
          \cup (IF r.div THEN {"div"} ELSE {})
          \cup (IF r.err = "inflight" THEN {"inflight"} ELSE {})
          \cup (IF r.ndr > 0 THEN {"afterdrop"} ELSE {})
+         \cup (IF r.ndr > 0 /\ mw[n].bdrop > 1 THEN {"batchdrop"} ELSE {})      \* one batch lost two or more reports
          \cup (IF mw[n].sblk > 0 THEN {"blockedstore"} ELSE {})
          \cup (IF bud.fo + bud.fail > 0 THEN {"refused"} ELSE {})
 EmitInt == (EmitEvery > 0 /\ JustDelivered /\ Len(Deliv(hist[Len(hist)].n)) > 0)
